@@ -1,2 +1,3 @@
 pub mod civil;
 pub mod roll;
+pub mod rules;
